@@ -18,7 +18,7 @@ def extract_operator_args(string_, pos):
                 open_pos += i
         elif char == ',':
             if brackets == 1:
-                comma_pos += i
+                comma_pos = pos + i
         elif char == ')':
             brackets -= 1
             if not brackets:
@@ -174,7 +174,7 @@ def make_struct_members(xml_elem, dynamic_array=False):
                 sizer_name = "numOf" + xml_elem_name[0].upper() + xml_elem_name[1:]
                 yield model.StructMember(xml_elem_name, xml_elem_type, bound=sizer_name, docstring=comment)
 
-            elif "isVariableSize" in dimension.attrib:
+            elif dimension.get("isVariableSize", "false").strip().lower() != "false":
                 type_ = dimension.get("variableSizeFieldType", "u32")
                 sizer_name = dimension.get("variableSizeFieldName", xml_elem_name + "_len")
                 yield model.StructMember(sizer_name, type_, docstring=comment)
